@@ -150,7 +150,7 @@ Definition c20_isolation_violations (cs : list c20_case) : list nat := indices_w
 Fixpoint dec_fuel (fuel : nat) (n : N) : list N :=
   match fuel with
   | O => []
-  | S f => if (n <=? 1)%N then [] else (n mod 256)%N :: dec_fuel f (n / 256)%N
+  | S f => if (n <=? 1)%N then [] else N.land n 255 :: dec_fuel f (N.shiftr n 8)   (* mod / div 256, bitwise: linear *)
   end.
 Definition dec (n : N) : list N := dec_fuel (N.size_nat n) n.
 Definition nn := N.to_nat.
